@@ -287,6 +287,12 @@ func syntheticRequests(reqdir string) error {
 				},
 			}},
 		}, {
+			// ... of a repeated (packed) enum field ...
+			Name: str("Audit"),
+			Field: []*descriptorpb.FieldDescriptorProto{
+				{Name: str("history"), JsonName: str("history"), Number: i32(1), Label: lbl(rep), Type: typ(descriptorpb.FieldDescriptorProto_TYPE_ENUM), TypeName: str(".verif.common.v1.Level")},
+			},
+		}, {
 			// ... and a message, here one level further down
 			Name: str("Routes"),
 			Field: []*descriptorpb.FieldDescriptorProto{
